@@ -1,4 +1,4 @@
-//@unit c11_decl props=C11 widths=u32
+//@unit c11_decl props=C11,C12 widths=u32
 //@use prelude/head.rs
 //@use prelude/strs.rs
 
@@ -9,8 +9,8 @@
 pub uninterp spec fn decl_kind(off: int, len: int) -> int;
 //@expect file=lrlex/src/lib/parser.rs re=`static RE_INCLUSIVE_START_STATE_DECLARATION: LazyLock<Regex> =\s*LazyLock::new\(\|\| Regex::new\(r"\^%\[sS\]\[a-zA-Z0-9\]\*\$"\)\.unwrap\(\)\);`
 //@expect file=lrlex/src/lib/parser.rs re=`static RE_EXCLUSIVE_START_STATE_DECLARATION: LazyLock<Regex> =\s*LazyLock::new\(\|\| Regex::new\(r"\^%\[xX\]\[a-zA-Z0-9\]\*\$"\)\.unwrap\(\)\);`
-#[verifier::external_body] pub fn re_inclusive_decl(d: Str) -> (r: bool) ensures r == (decl_kind(d.off as int, d.len as int) == 1) { unimplemented!() }
-#[verifier::external_body] pub fn re_exclusive_decl(d: Str) -> (r: bool) ensures r == (decl_kind(d.off as int, d.len as int) == 2) { unimplemented!() }
+#[verifier::external_body] pub fn re_inclusive_decl(d: Str) -> (r: bool) ensures r == (decl_kind(d.off as int, d.len as int) == 1), r ==> d.len >= 2 { unimplemented!() }
+#[verifier::external_body] pub fn re_exclusive_decl(d: Str) -> (r: bool) ensures r == (decl_kind(d.off as int, d.len as int) == 2), r ==> d.len >= 2 { unimplemented!() }
 pub uninterp spec fn trim_end_len(off: int, len: int) -> int;     // length left by trim_end_matches(whitespace)
 pub uninterp spec fn first_ws(off: int, len: int) -> Option<int>; // RE_WS.find(..).map(start)
 pub uninterp spec fn line_len_spec(i: int) -> int;                // distance from i to the next line separator (or the end)
@@ -23,7 +23,7 @@ impl Str {
     // RE_WS.split(s): the maximal pieces between white-space characters, in order; consecutive
     // pieces are separated by at least one byte
     #[verifier::external_body] pub fn split_ws(&self) -> (r: Vec<Str>)
-        ensures forall|k: int| 0 <= k < r@.len() ==> self.off <= (#[trigger] r@[k]).off && r@[k].off + r@[k].len <= self.off + self.len,
+        ensures r@.len() >= 1, forall|k: int| 0 <= k < r@.len() ==> self.off <= (#[trigger] r@[k]).off && r@[k].off + r@[k].len <= self.off + self.len,
                 forall|k: int| 0 <= k < r@.len() - 1 ==> (#[trigger] r@[k]).off + r@[k].len < r@[k + 1].off,
     { unimplemented!() }
 }
@@ -48,8 +48,9 @@ impl DeclParser {
     { unimplemented!() }
     // stand-in for the call of declare_start_states from parse_declaration: logs what it was asked to declare
     #[verifier::external_body] pub fn declare_start_states_call(&mut self, exclusive: bool, i: usize, declaration_len: usize, line_len: usize, errs: &mut Vec<LexBuildError>) -> (r: Result<usize, LexBuildError>)
-        requires declaration_len <= line_len, i + line_len <= old(self).slen,
-        ensures final(self).decl_log@ == old(self).decl_log@.push((exclusive, i, declaration_len, line_len)), final(self).slen == old(self).slen, final(self).start_states@.len() >= old(self).start_states@.len()
+        requires 1 <= declaration_len <= line_len, i + line_len <= old(self).slen, // OBLG: C12.lex.declaration_word_not_empty
+        ensures r matches Ok(k) ==> k > i,   // proved for declare_start_states below
+            final(self).decl_log@ == old(self).decl_log@.push((exclusive, i, declaration_len, line_len)), final(self).slen == old(self).slen, final(self).start_states@.len() >= old(self).start_states@.len()
     { unimplemented!() }
 }
 // the declaration word of the line starting at i, as parse_declaration finds it
@@ -64,6 +65,7 @@ impl DeclParser {
         requires i <= old(self).slen, old(self).slen <= isize::MAX,
         ensures
             !(decl_word_kind(i as int) == 1 || decl_word_kind(i as int) == 2) ==> r is Err && final(self).decl_log@ == old(self).decl_log@, // OBL: C11.only_s_and_x_words_declare_start_states
+            r matches Ok(k) ==> k > i, // OBL: C12.lex.parse_declaration.ok_advances
             (decl_word_kind(i as int) == 1 || decl_word_kind(i as int) == 2) ==> final(self).decl_log@ == old(self).decl_log@.push((decl_word_kind(i as int) == 2, i, decl_len_spec(i as int) as usize, line_len_spec(i as int) as usize)), // OBL: C11.x_words_declare_exclusive_states_s_words_inclusive
     {
         //@probe
@@ -80,9 +82,10 @@ impl DeclParser {
 
     //@ctx declare_start_states: called with the word length and line length parse_declaration measured at cursor i
     fn declare_start_states(&mut self, exclusive: bool, i0: usize, declaration_len: usize, line_len: usize, errs: &mut Vec<LexBuildError>) -> (r: Result<usize, LexBuildError>)
-        requires declaration_len <= line_len, i0 + line_len <= old(self).slen, old(self).slen <= isize::MAX,
+        requires 1 <= declaration_len <= line_len, i0 + line_len <= old(self).slen, old(self).slen <= isize::MAX,
             forall|k: int| 0 <= k < old(self).start_states@.len() ==> (#[trigger] old(self).start_states@[k]).id == k,
         ensures
+            r matches Ok(k) ==> k > i0, // OBL: C12.lex.declare_start_states.ok_advances
             final(self).slen == old(self).slen,
             final(self).start_states@.len() >= old(self).start_states@.len(),
             forall|k: int| 0 <= k < old(self).start_states@.len() ==> final(self).start_states@[k] == old(self).start_states@[k],
@@ -104,7 +107,7 @@ impl DeclParser {
         let mut start_states: Vec<(Str, Span)> = Vec::new();
         let mut pk_: usize = 0;
         while pk_ < pieces_.len()
-            invariant pk_ <= pieces_@.len(), start_states@.len() == pk_, self.slen <= isize::MAX, i <= self.slen,
+            invariant pk_ <= pieces_@.len(), start_states@.len() == pk_, self.slen <= isize::MAX, i <= self.slen, pk_ > 0 ==> i >= i0 + declaration_len,
                 i0 + declaration_len <= declaration_parameters.off, declaration_parameters.off + declaration_parameters.len <= i0 + line_len, i0 + line_len <= self.slen,
                 forall|k: int| 0 <= k < pieces_@.len() ==> declaration_parameters.off <= (#[trigger] pieces_@[k]).off && pieces_@[k].off + pieces_@[k].len <= declaration_parameters.off + declaration_parameters.len,
                 forall|k: int| 0 <= k < pk_ ==> (#[trigger] start_states@[k]).0 == pieces_@[k] && reads(start_states@[k].1, pieces_@[k]), // OBL: C11.start_state_name_span_reads_the_name_in_the_source.each_piece
@@ -122,7 +125,7 @@ impl DeclParser {
         //@rule n=1 `^(\s*)for \(name, name_span\) in start_states \{$` =>>
         let mut sk_: usize = 0;
         while sk_ < start_states.len()
-            invariant sk_ <= start_states@.len(), start_states@.len() == pieces_@.len(), self.slen == old(self).slen, i <= self.slen,
+            invariant sk_ <= start_states@.len(), start_states@.len() == pieces_@.len(), self.slen == old(self).slen, i <= self.slen, i >= i0 + declaration_len,
                 i0 + declaration_len <= declaration_parameters.off, declaration_parameters.off + declaration_parameters.len <= i0 + line_len,
                 forall|k: int| 0 <= k < pieces_@.len() ==> declaration_parameters.off <= (#[trigger] pieces_@[k]).off && pieces_@[k].off + pieces_@[k].len <= declaration_parameters.off + declaration_parameters.len,
                 forall|k: int| 0 <= k < pieces_@.len() - 1 ==> (#[trigger] pieces_@[k]).off + pieces_@[k].len < pieces_@[k + 1].off,
